@@ -1,5 +1,9 @@
 import EudoxiaModel.Model.Sched.Priority
 import EudoxiaModel.Proofs.WorldInv
+import EudoxiaModel.Proofs.CtrKept
+import EudoxiaModel.Proofs.NaiveMulti
+import EudoxiaModel.Proofs.PrioBudget
+import EudoxiaModel.Proofs.WorldLive
 /-! # C16 — priority-pool keeps batch work and latency-sensitive work on separate pools -/
 namespace Eudoxia.C16
 open Eudoxia Eudoxia.Prio OpState Extracted
@@ -216,5 +220,164 @@ theorem newSize_keeps_both_or_none (q : Nat) (s : Snap) (h0 : 0 < s.availC) (h1 
   · rename_i h
     simp only [Bool.or_eq_true, decide_eq_true_eq, not_or, Int.not_le] at h
     right; omega
+
+/-! ### over whole runs -/
+
+/-- a container sits where its class belongs: query / interactive work on pool 0, everything else (batch) on pool 1.  (`c.pool` is the `pool_id` of the
+assignment the container was made from, which is also the pool the executor routes it to.) -/
+def Placed (c : Ctr) : Prop :=
+  (c.prio = prioQuery ∨ c.prio = prioInteractive → c.pool = 0) ∧ (c.prio ≠ prioQuery ∧ c.prio ≠ prioInteractive → c.pool = 1)
+
+theorem runAt_placed {w w' : Store} {c c' : Ctr} {cons cons' : Int} {r : Nat} {last : Bool} {m : Nat}
+    (h : runAt w c cons r last m = .ok (w', c', cons')) : c'.prio = c.prio ∧ c'.pool = c.pool := by
+  unfold runAt at h
+  split at h
+  · cases h; exact ⟨rfl, rfl⟩
+  · split at h
+    · split at h
+      · cases h
+      · split at h <;> (cases h; exact ⟨rfl, rfl⟩)
+    · cases h; exact ⟨rfl, rfl⟩
+
+theorem tick_placed (cfg : Cfg) (w : Store) (c : Ctr) (cons : Int) (w' : Store) (c' : Ctr) (cons' : Int)
+    (h : c.tick cfg w cons = .ok (w', c', cons')) (hc : Placed c) : Placed c' := by
+  have key : c'.prio = c.prio ∧ c'.pool = c.pool := by
+    unfold Ctr.tick at h
+    split at h
+    · cases h; exact ⟨rfl, rfl⟩
+    · split at h
+      · cases h
+      · rename_i w1 c1 cons1 hadv
+        simp only [Except.ok.injEq, Prod.mk.injEq] at h
+        obtain ⟨_, rfl, _⟩ := h
+        show c1.prio = c.prio ∧ c1.pool = c.pool
+        unfold advance at hadv
+        split at hadv
+        · cases hadv; exact ⟨rfl, rfl⟩
+        · split at hadv
+          · cases hadv
+          · rename_i w2 c2 hs
+            obtain ⟨_, hsame, _⟩ := seek_spec _ _ _ _ _ hs
+            have h2 : c2.prio = c.prio ∧ c2.pool = c.pool := by unfold Ctr.SameButPos at hsame; rw [hsame]; exact ⟨rfl, rfl⟩
+            unfold runTick at hadv
+            split at hadv
+            · obtain ⟨a, b⟩ := runAt_placed hadv
+              exact ⟨a.trans h2.1, b.trans h2.2⟩
+            · cases hadv
+  unfold Placed
+  rw [key.1, key.2]
+  exact hc
+
+theorem kill_placed (w : Store) (c : Ctr) (cons : Int) (w' : Store) (c' : Ctr) (cons' : Int)
+    (h : c.kill w cons = .ok (w', c', cons')) (hc : Placed c) : Placed c' := by
+  unfold Ctr.kill at h
+  split at h
+  · cases h
+  · simp only [Ctr.setMem, Except.ok.injEq, Prod.mk.injEq] at h
+    obtain ⟨_, rfl, _⟩ := h
+    exact hc
+
+theorem placed_kept (cfg : Cfg) : Kept cfg Placed := ⟨tick_placed cfg, kill_placed⟩
+
+/-- the simulator's main loop for the priority-pool scheduler -/
+def loop : World → St → List Res → List (List Nat) → Except Err (World × St × List Res)
+  | w, st, res, [] => .ok (w, st, res)
+  | w, st, res, newP :: rest =>
+    match ppRound w st res newP with
+    | .error e => .error e.1
+    | .ok (w1, st1, dec) =>
+      match w1.execTick dec.sus dec.asgs with
+      | .error e => .error e.1
+      | .ok (w2, res2) => loop w2 st1 res2 rest
+
+/-- what holds at every tick boundary of a priority-pool run: the queues hold jobs of their class, nothing is being suspended, every container of every pool
+and every result reported sits where its class belongs -/
+structure SepInv (w : World) (st : St) (res : List Res) : Prop where
+  cls : ClassOK st
+  nosusp : w.NoSusp
+  ctrs : ∀ p ∈ w.pools, AllC Placed p.active
+  rs : ∀ r ∈ res, ∃ c, Placed c ∧ r = mkRes c
+
+theorem ppRound_pools (w w1 : World) (st st1 : St) (res : List Res) (newP : List Nat) (dec : Decision)
+    (h : ppRound w st res newP = .ok (w1, st1, dec)) : w1.pools = w.pools := by
+  unfold ppRound at h
+  split at h
+  · cases h
+  · simp only at h
+    split at h
+    · cases h
+    · rename_i hq1
+      split at h
+      · cases h
+      · rename_i hq2
+        split at h
+        · cases h
+        · rename_i hq3
+          simp only [Except.ok.injEq, Prod.mk.injEq] at h
+          obtain ⟨rfl, _, _⟩ := h
+          obtain ⟨_, _, b1⟩ := C08.ppQueue_built _ _ _ _ _ _ _ _ _ _ _ hq1
+          obtain ⟨_, _, b2⟩ := C08.ppQueue_built _ _ _ _ _ _ _ _ _ _ _ hq2
+          obtain ⟨_, _, b3⟩ := C08.ppQueue_built _ _ _ _ _ _ _ _ _ _ _ hq3
+          rw [(built_frame b3).1, (built_frame b2).1, (built_frame b1).1]
+
+/-- one round plus one executor tick keep the separation -/
+theorem tick_keeps_classes_apart (w : World) (st : St) (res : List Res) (newP : List Nat) (w1 : World) (st1 : St) (dec : Decision) (w2 : World) (res2 : List Res)
+    (inv : SepInv w st res) (hr : ppRound w st res newP = .ok (w1, st1, dec)) (hx : w1.execTick dec.sus dec.asgs = .ok (w2, res2)) : SepInv w2 st1 res2 := by
+  have henq : ∃ s, ppEnqueue w st res newP = .ok s := by
+    unfold ppRound at hr
+    split at hr
+    · cases hr
+    · rename_i s hs; exact ⟨s, hs⟩
+  obtain ⟨s, hs⟩ := henq
+  obtain ⟨hsus, hplace⟩ := classes_on_separate_pools w w1 st s st1 res newP dec hs inv.cls hr
+  have hcls := ppRound_classOK w w1 st st1 res newP dec inv.cls hr
+  have hpools : w1.pools = w.pools := ppRound_pools w w1 st st1 res newP dec hr
+  rw [hsus] at hx
+  unfold World.execTick at hx
+  split at hx
+  · cases hx
+  · split at hx
+    · cases hx
+    · cases hx
+    · rename_i s' ps n rr hexp
+      simp only [Except.ok.injEq, Prod.mk.injEq] at hx
+      obtain ⟨rfl, rfl⟩ := hx
+      obtain ⟨o1, o2⟩ := execPools_kept w1.cfg dec.asgs (placed_kept w1.cfg)
+        (fun a ha s'' j => by
+          obtain ⟨p1, p2⟩ := hplace a ha
+          exact ⟨p1, p2⟩)
+        w1.pools w1.store w1.nextCid [] [] s' ps n rr
+        (by intro p hp; simp only [List.nil_append] at hp; rw [hpools] at hp; exact ⟨inv.ctrs p hp, inv.nosusp p hp⟩) (by simp) hexp
+      exact ⟨hcls, fun p hp => (o1 p hp).2, fun p hp => (o1 p hp).1, o2⟩
+
+/-- **C16 over whole runs.**  Starting from a world in which every container sits where its class belongs (e.g. one without containers), every run of the
+priority-pool scheduler and the executor that reaches its end reaches it in such a world again — and so does every prefix of the run: at no tick boundary is
+there a batch container on pool 0, or a query / interactive container on pool 1, or a write-out in progress; retries included. -/
+theorem classes_stay_apart_over_whole_runs : ∀ (arrivals : List (List Nat)) (w : World) (st : St) (res : List Res) (w' : World) (st' : St) (res' : List Res),
+    SepInv w st res → loop w st res arrivals = .ok (w', st', res') → SepInv w' st' res' := by
+  intro arrivals
+  induction arrivals with
+  | nil => intro w st res w' st' res' inv h; simp only [loop, Except.ok.injEq, Prod.mk.injEq] at h; obtain ⟨rfl, rfl, rfl⟩ := h; exact inv
+  | cons newP rest ih =>
+    intro w st res w' st' res' inv h
+    unfold loop at h
+    split at h
+    · cases h
+    · rename_i w1 st1 dec hr
+      split at h
+      · cases h
+      · rename_i w2 res2 hx
+        exact ih w2 st1 res2 w' st' res' (tick_keeps_classes_apart w st res newP w1 st1 dec w2 res2 inv hr hx) h
+
+/-- non-vacuity: a world without containers and an empty scheduler state satisfy the invariant -/
+theorem fresh_world_separated (cfg : Cfg) (store : Store) (pipes : Array PipeInfo) (caps : List (Nat × Nat)) :
+    SepInv { cfg := cfg, store := store, pools := caps.map (fun c => Pool.fresh c.1 c.2), pipes := pipes } {} [] := by
+  refine ⟨classOK_init, ?_, ?_, by simp⟩
+  · intro p hp
+    obtain ⟨c, _, rfl⟩ := List.mem_map.mp hp
+    rfl
+  · intro p hp c hc
+    obtain ⟨x, _, rfl⟩ := List.mem_map.mp hp
+    simp [Pool.fresh] at hc
 
 end Eudoxia.C16
